@@ -409,14 +409,14 @@ func (f *LnFunction) Execute(ctx *FunctionContext, args []any) (any, error) {
 	return math.Log(val), nil
 }
 
-// LogFunction 以10为底的对数函数 (log的别名)
+// LogFunction 对数函数：log(number) 以10为底，log(base, number) 以 base 为底
 type LogFunction struct {
 	*BaseFunction
 }
 
 func NewLogFunction() *LogFunction {
 	return &LogFunction{
-		BaseFunction: NewBaseFunction("log", TypeMath, "数学函数", "计算以10为底的对数", 1, 1),
+		BaseFunction: NewBaseFunction("log", TypeMath, "数学函数", "计算以10为底或指定底数的对数", 1, 2),
 	}
 }
 
@@ -425,14 +425,31 @@ func (f *LogFunction) Validate(args []any) error {
 }
 
 func (f *LogFunction) Execute(ctx *FunctionContext, args []any) (any, error) {
-	val, err := cast.ToFloat64E(args[0])
+	// log(base, number): the number is the last argument
+	val, err := cast.ToFloat64E(args[len(args)-1])
 	if err != nil {
 		return nil, err
 	}
 	if val <= 0 {
 		return nil, fmt.Errorf("log: value must be positive")
 	}
-	return math.Log10(val), nil
+	if len(args) < 2 {
+		return math.Log10(val), nil
+	}
+	base, err := cast.ToFloat64E(args[0])
+	if err != nil {
+		return nil, err
+	}
+	if base <= 0 || base == 1 {
+		return nil, fmt.Errorf("log: base must be positive and not equal to 1")
+	}
+	switch base {
+	case 10:
+		return math.Log10(val), nil
+	case 2:
+		return math.Log2(val), nil
+	}
+	return math.Log(val) / math.Log(base), nil
 }
 
 // Log10Function 以10为底的对数函数
